@@ -38,6 +38,10 @@ type Case struct {
 	Schema   string `json:"schema,omitempty"`
 	Encoding string `json:"encoding,omitempty"` // raw JSON of the media type's encoding map
 	Defaults bool   `json:"defaults,omitempty"` // validate with default-setting on (the library's default) instead of skipped
+	// DeclKey: how the media type is declared: "" its plain name | "subtype-wildcard" (application/*) |
+	// "wildcard" (*/*) | "params" (name; charset=utf-8, sent verbatim). Whichever key selects the media
+	// type, its schema and encoding apply.
+	DeclKey string `json:"decl_key,omitempty"`
 	Value    string `json:"value,omitempty"`
 	Rep      string `json:"rep,omitempty"`
 	NoRO     bool   `json:"exclude_readonly,omitempty"`
@@ -343,7 +347,22 @@ func checkDecode(c Case) (o h.Outcome) {
 		mt["encoding"] = encoding
 	}
 	key := strings.SplitN(ct, ";", 2)[0]
-	doc, err := docWithBody(M{"content": M{key: mt}, "required": true})
+	declKey := key
+	switch c.DeclKey {
+	case "subtype-wildcard":
+		declKey = key[:strings.IndexByte(key, '/')] + "/*"
+	case "wildcard":
+		declKey = "*/*"
+	case "params":
+		if c.Mode != "multipart" { // the multipart header carries the boundary: no exact match possible
+			declKey = key + "; charset=utf-8"
+			ct = declKey
+		}
+	}
+	if declKey != key {
+		o.Class("declared-as:%s:%s", c.DeclKey, c.Mode)
+	}
+	doc, err := docWithBody(M{"content": M{declKey: mt}, "required": true})
 	if err != nil {
 		o.Discard = true
 		return
@@ -365,7 +384,7 @@ func checkDecode(c Case) (o h.Outcome) {
 		if dec == nil {
 			panic("harness: no decoder for " + key)
 		}
-		mtv := doc.Paths.Find("/r").Post.RequestBody.Value.Content[key]
+		mtv := doc.Paths.Find("/r").Post.RequestBody.Value.Content[declKey]
 		encFn := func(name string) *openapi3.Encoding { return mtv.Encoding[name] }
 		var got any
 		var derr error
@@ -660,6 +679,9 @@ func gen(t *rapid.T) Case {
 		if len(enc) > 0 && mode == "form" {
 			c.Encoding = jv.Canon(enc)
 		}
+		if rapid.IntRange(0, 2).Draw(t, "declkey") == 0 {
+			c.DeclKey = rapid.SampledFrom([]string{"subtype-wildcard", "wildcard", "params"}).Draw(t, "declkeykind")
+		}
 		return c
 	case 4:
 		s := M{"type": "string"}
@@ -677,7 +699,11 @@ func gen(t *rapid.T) Case {
 		}
 		s := schemagen.Gen(schemagen.Options{Depth: depth, ReadWrite: true}).Draw(t, "schema")
 		v := schemagen.GenValue(s, depth+1).Draw(t, "value")
-		return Case{Mode: "json", Schema: jv.Canon(s), Value: jv.Canon(v), NoRO: rapid.Bool().Draw(t, "noro")}
+		c := Case{Mode: "json", Schema: jv.Canon(s), Value: jv.Canon(v), NoRO: rapid.Bool().Draw(t, "noro")}
+		if rapid.IntRange(0, 5).Draw(t, "declkey") == 0 {
+			c.DeclKey = rapid.SampledFrom([]string{"subtype-wildcard", "wildcard", "params"}).Draw(t, "declkeykind")
+		}
+		return c
 	}
 }
 
